@@ -8,11 +8,11 @@ package main
 // re-execution); results are written as JSON for the vcheck driver.
 
 import (
+	"bufio"
 	"encoding/json"
 	"flag"
 	"fmt"
 	"go/types"
-	"bufio"
 	"io"
 	"os"
 	"os/exec"
@@ -29,30 +29,31 @@ import (
 )
 
 type Config struct {
-	Property     string
-	Entry        string
-	MaxDecisions int
-	MaxConcretize int
-	MaxPreempt   int
-	MaxSteps     int64
-	MaxDepth     int
-	MaxAlloc     int
-	SmallAlloc   int
-	MaxPaths     int
-	TimerPreempt bool
-	Trace        bool
-	Param        int
-	Bound        int
-	Par          int
-	WorkFile     string
-	SliceS       int
-	Serve        bool
+	Property        string
+	Entry           string
+	MaxDecisions    int
+	MaxConcretize   int
+	DurationWitness bool
+	MaxPreempt      int
+	MaxSteps        int64
+	MaxDepth        int
+	MaxAlloc        int
+	SmallAlloc      int
+	MaxPaths        int
+	TimerPreempt    bool
+	Trace           bool
+	Param           int
+	Bound           int
+	Par             int
+	WorkFile        string
+	SliceS          int
+	Serve           bool
 	UnwindViolation bool
-	batch        [][]Decision
-	RawArgs      []string
-	SolverKind   string
-	TimeoutMs    int
-	WallLimit    time.Duration
+	batch           [][]Decision
+	RawArgs         []string
+	SolverKind      string
+	TimeoutMs       int
+	WallLimit       time.Duration
 }
 
 type EntryResult struct {
@@ -121,6 +122,7 @@ func cmdRun(mode string, args []string) int {
 	fs.StringVar(&cfg.Property, "property", "", "property id")
 	fs.IntVar(&cfg.MaxDecisions, "max-decisions", 400, "decisions per path (unwinding bound)")
 	fs.IntVar(&cfg.MaxConcretize, "max-concretize", 300, "values per concretisation")
+	fs.BoolVar(&cfg.DurationWitness, "duration-witness", false, "abstraction: a symbolic duration passed to context.WithTimeout is represented by one witness per sign class")
 	fs.IntVar(&cfg.MaxPreempt, "preempt", 0, "delay bound: scheduling deviations (incl. timer firings while threads can run) per path")
 	fs.Int64Var(&cfg.MaxSteps, "max-steps", 20000000, "instructions per path")
 	fs.IntVar(&cfg.MaxDepth, "max-depth", 400, "call depth")
